@@ -368,6 +368,13 @@ impl PartitionStorage for FilePartitionStorage {
         path: &str,
     ) -> Result<Vec<ConsumerOffset>, IggyError> {
         trace!("Loading consumer offsets from path: {path}...");
+        if !Path::new(path).exists() {
+            // A purge removes the directory before it creates it again; after an unclean stop in
+            // between there is simply no stored offset.
+            create_dir_all(path)
+                .await
+                .map_err(|_| IggyError::CannotReadConsumerOffsets(path.to_owned()))?;
+        }
         let dir_entries = fs::read_dir(&path).await;
         if dir_entries.is_err() {
             return Err(IggyError::CannotReadConsumerOffsets(path.to_owned()));
